@@ -193,6 +193,11 @@ def gen_fit(rng):
             v = spec["ptrue"][i]
             spec["limited"][names[i]] = [round(v - 5 * abs(v) - 5, 3), round(v + 5 * abs(v) + 5, 3)]
     spec["set"] = [round(v * rng.choice([0.9, 1.0, 1.1]), 4) for v in spec["ptrue"]] if rng.random() < 0.6 else None
+    # a single value set through the keyword form, as the last thing before saving
+    if rng.random() < 0.35:
+        i = rng.randrange(len(names))
+        if names[i] not in spec["fixed"]:
+            spec["set_kw"] = {names[i]: round(spec["ptrue"][i] * 1.13 + 0.02, 4)}
     # documented cost function option handed over as an object (low rate: the space behind open finding F-C09-13 stays explored)
     spec["nodet"] = t in ("xy", "indexed") and spec["cost"].startswith("chi2") and rng.random() < 0.06
     return spec
@@ -233,6 +238,8 @@ def build_fit(spec):
         fit.fix_parameter(nm, v)
     for nm, (lo, hi) in spec["limited"].items():
         fit.limit_parameter(nm, lo, hi)
+    if spec.get("set_kw"):
+        fit.set_parameter_values(**spec["set_kw"])
     return fit
 
 
